@@ -85,18 +85,22 @@ class ItemAttributeList(List[T]):
 
         list.insert(self, index, obj)
 
-    def remove(self, obj: T) -> None:
-        list.remove(self, obj)
+    def _remove_attribute_item(self, item: T) -> None:
+        # only remove the name of the item which has been removed
+        # from the list, not the names of all items which compare
+        # equal to it
+        for key, value in self._item_dict.items():
+            if value is item:
+                del self._item_dict[key]
+                return
 
-        keys = [k for (k, v) in self._item_dict.items() if v == obj]
-        for key in keys:
-            del self._item_dict[key]
+    def remove(self, obj: T) -> None:
+        result = list.pop(self, list.index(self, obj))
+        self._remove_attribute_item(result)
 
     def pop(self, index: SupportsIndex = -1) -> T:
         result = list.pop(self, index)
-        keys = [k for (k, v) in self._item_dict.items() if v == result]
-        for key in keys:
-            del self._item_dict[key]
+        self._remove_attribute_item(result)
         return result
 
     def extend(self, items: Iterable[T]) -> None:
